@@ -331,6 +331,11 @@ func (i *Interpreter) eval(expr ast.Expr, env *environment.Environment, isRepl b
 		return value, &ControlFlowSignal{Type: ControlFlowNone, LineNumber: 0}
 
 	case *ast.Literal:
+		// A string literal reaches us as the scanner's []rune; every other string at run time is a Go
+		// string, so convert here: a string must behave the same however it was produced.
+		if runes, ok := e.Value.([]rune); ok {
+			return string(runes), &ControlFlowSignal{Type: ControlFlowNone, LineNumber: 0}
+		}
 		return e.Value, &ControlFlowSignal{Type: ControlFlowNone, LineNumber: 0}
 
 	case *ast.Grouping:
@@ -646,6 +651,13 @@ func handleAddition(left, right interface{}, operator token.Token) interface{} {
 			return fmt.Sprintf("%v", leftNum) + string(rightStr)
 		}
 	case string:
+		// same rule as for a string literal below: a boolean on the right is spliced in as text
+		if b, ok := right.(bool); ok {
+			if b {
+				return l + "true"
+			}
+			return l + "false"
+		}
 		rightStr, err := stringifyOperand(right)
 		if err != nil {
 			utils.RuntimeError(operator, "Right operand must be a string or number.")
